@@ -1,12 +1,17 @@
 #!/bin/bash
-# seeddemo.sh <worktree> <k> <package dir relative to worktree> <go test -run pattern>
+# seeddemo.sh <worktree> <k> <package dir relative to worktree | main> <go test -run pattern>
 # Confirms a seeded change's demonstration: fails with the patch, passes without.
+# With "main" the demonstration is out/<k>/demo/main.go, run from the ociregistry module.
 WT=$1; K=$2; PKG=$3; PAT=$4
 git -C $WT checkout -q -- . ; git -C $WT clean -qfd -e out
-cp $WT/out/$K/demo/*_test.go $WT/$PKG/ 2>/dev/null
-(cd $WT/$PKG && GOPROXY=off GOSUMDB=off go test -vet=off -count=1 -run "$PAT" . >/tmp/seeddemo.clean 2>&1) && clean=PASS || clean=FAIL
+run() {
+  if [ "$PKG" = main ]; then (cd $WT/ociregistry && GOPROXY=off GOSUMDB=off timeout 600 go run ../out/$K/demo/main.go >$1 2>&1)
+  else (cd $WT/$PKG && GOPROXY=off GOSUMDB=off timeout 600 go test $SEEDDEMO_FLAGS -vet=off -count=1 -run "$PAT" . >$1 2>&1); fi
+}
+[ "$PKG" = main ] || cp $WT/out/$K/demo/*_test.go $WT/$PKG/ 2>/dev/null
+run /tmp/seeddemo.clean && clean=PASS || clean=FAIL
 git -C $WT apply $WT/out/$K/patch.diff
-(cd $WT/$PKG && GOPROXY=off GOSUMDB=off go test -vet=off -count=1 -run "$PAT" . >/tmp/seeddemo.mut 2>&1) && mut=PASS || mut=FAIL
+run /tmp/seeddemo.mut && mut=PASS || mut=FAIL
 echo "demo on clean tree: $clean; demo with patch: $mut"
 [ "$clean" = PASS ] && [ "$mut" = FAIL ] && echo "DEMO CONFIRMED" || { echo "DEMO NOT CONFIRMED"; tail -5 /tmp/seeddemo.clean /tmp/seeddemo.mut; }
 git -C $WT checkout -q -- . ; git -C $WT clean -qfd -e out
